@@ -27,27 +27,6 @@ fn collect_nodes(root: &'static Node) -> Vec<(&'static Node, String)> {
     out
 }
 
-fn show(call: &Option<CommandCall<'_>>) -> String {
-    match call {
-        None => "empty unit".to_string(),
-        Some(c) => format!(
-            "call(node {:p}, header {:?}, query {}, args {:?}, terminated {})",
-            c.node,
-            c.header.map(|h| h as *const Node),
-            c.query,
-            c.args,
-            c.terminated
-        ),
-    }
-}
-
-fn show_res(r: &Result<(&[u8], Option<CommandCall<'_>>), ParseError>) -> String {
-    match r {
-        Ok((rem, call)) => format!("Ok({} bytes left, {})", rem.len(), show(call)),
-        Err(e) => format!("Err({:?})", e),
-    }
-}
-
 #[derive(Debug, PartialEq, Clone, Copy)]
 enum Verdict {
     Ok,
@@ -203,128 +182,7 @@ fn index_to_string(mut idx: u64) -> Vec<u8> {
     s
 }
 
-fn node_for_ctx(root: &'static Node, ctx: &[String]) -> Option<&'static Node> {
-    let mut n = root;
-    for c in ctx {
-        n = n.child(c)?;
-    }
-    Some(n)
-}
-
-/// Generated well-formed units: prefixes, tails.
-fn unit_prop(
-    model: &Model, ix: &Index, root: &'static Node, tape: &[u32], st: &mut Stats,
-) -> Result<(), String> {
-    let mut t = Tape::new(tape);
-    let mut cfg = GenCfg::default();
-    cfg.lit.newlines = true;
-    cfg.w_unit = [6, 3, 2, 1];
-    // walk a few units to get a non-root context
-    let mut ctx: Vec<String> = Vec::new();
-    let hops = t.below(3);
-    for _ in 0..hops {
-        let u = gen::gen_unit(&mut t, ix, &ctx, &cfg);
-        if let Some(c) = model.resolve(&ctx, &u.header).new_ctx {
-            if model.node_exists(&c) {
-                ctx = c;
-            }
-        }
-    }
-    let start = node_for_ctx(root, &ctx).ok_or("harness: context node missing")?;
-    let unit = gen::gen_unit(&mut t, ix, &ctx, &cfg);
-    let res = model.resolve(&ctx, &unit.header);
-    let mut u = Vec::new();
-    unit.render(&mut u);
-    u.push(if t.chance(1, 2) { b'\n' } else { b';' });
-    let tail_len = t.below(10);
-    let tail: Vec<u8> = (0..tail_len)
-        .map(|_| match t.weighted(&[3, 2, 1]) {
-            0 => ALPHABET[t.below(ALPHABET.len())],
-            1 => b"'\"\n#;"[t.below(5)],
-            _ => t.byte(),
-        })
-        .collect();
-    let mut full = u.clone();
-    full.extend_from_slice(&tail);
-    let r = parse(root, start, &full);
-    if let Err(ParseError::Incomplete) = r {
-        return Err(format!("parse('{}') = Incomplete although it starts with the complete unit '{}'", esc(&full), esc(&u)));
-    }
-    let r_alone = parse(root, start, &u);
-    match (&r_alone, res.node_exists) {
-        (Ok((rem, call)), _) => {
-            if !rem.is_empty() {
-                return Err(format!("parse('{}') left {} bytes of a single well-formed unit", esc(&u), rem.len()));
-            }
-            match &r {
-                Ok((rem2, call2)) if *rem2 == &tail[..] && call2 == call => {}
-                other => {
-                    return Err(format!(
-                        "parse('{}') = {} but parse('{}') = {}",
-                        esc(&u),
-                        show(call),
-                        esc(&full),
-                        show_res(other)
-                    ))
-                }
-            }
-            st.class("unit accepted");
-            let has_payload_newline = unit.args.iter().any(|a| a.payload().map(|p| p.contains(&b'\n')).unwrap_or(false));
-            if has_payload_newline {
-                st.class("unit with payload newline");
-            }
-            if has_payload_newline || !tail.is_empty() {
-                st.nontrivial(&full);
-            }
-        }
-        (Err(ParseError::Incomplete), _) => {
-            return Err(format!("parse('{}') = Incomplete for a complete well-formed unit", esc(&u)));
-        }
-        // whether a well-formed unit is accepted is the business of C01/C03/C08, not of C12
-        (Err(_), true) => st.class("unit rejected although its header is defined"),
-        (Err(_), false) => st.class("unit with undefined header"),
-    }
-    // proper prefixes: never accepted; if rejected while newline-terminated, the full unit (a
-    // continuation) must not be accepted
-    let accepted = r_alone.is_ok();
-    for k in 0..u.len() {
-        let p = &u[..k];
-        st.evals_add(1);
-        match parse(root, start, p) {
-            Ok((rem, call)) => {
-                // a prefix that is itself a complete unit can only arise from an empty unit
-                if call.is_some() || rem.len() != 0 {
-                    return Err(format!(
-                        "proper prefix '{}' of the single unit '{}' is accepted as {}",
-                        esc(p),
-                        esc(&u),
-                        show(&call)
-                    ));
-                }
-                if accepted && !p.is_empty() {
-                    return Err(format!(
-                        "prefix '{}' is accepted as an empty unit but '{}' is accepted as one unit",
-                        esc(p),
-                        esc(&u)
-                    ));
-                }
-            }
-            Err(ParseError::Incomplete) => {}
-            Err(e) => {
-                if accepted && p.last() == Some(&b'\n') {
-                    return Err(format!(
-                        "parse('{}') is rejected with {:?} (not Incomplete), yet its continuation '{}' is accepted",
-                        esc(p),
-                        e,
-                        esc(&u)
-                    ));
-                }
-            }
-        }
-    }
-    st.sample(|| json!({ "context": ctx, "unit": esc(&u), "tail": esc(&tail) }));
-    Ok(())
-}
+use vrun::props::{c12_show as show, c12_unit_prop as unit_prop};
 
 fn main() {
     let mut h = Harness::from_args("C12");
@@ -392,7 +250,7 @@ fn main() {
         },
     );
 
-    let cases = h.tier.pick(150_000, 3_000_000);
+    let cases = h.tier.pick(300_000, 3_000_000);
     h.check(
         "c12.units",
         "proptest tapes -> one well-formed unit of the mini fixture (strings/blocks with arbitrary payloads incl. newlines, quotes, '#', ';') in a reachable path context, terminated by ';' or newline, plus a random tail: the unit alone and unit+tail must give the same call and the remainder must be exactly the tail, never Incomplete; every proper prefix must be Incomplete or rejected, and a newline-terminated prefix must not be rejected when the unit is accepted; non-trivial = payload newline or non-empty tail",
